@@ -383,9 +383,11 @@ def rule_trunc(ctx, rd):
         ok = len(firsts) == 1 and isinstance(firsts[0].targets[0], ast.Tuple) and norm(firsts[0].targets[0].elts[0]) == cnt
         body_calls = [s for s in loops[0].body if isinstance(s, ast.Assign) and isinstance(s.value, ast.Call)
                       and norm(s.value.func) == rm.params[2]]
-        ok = ok and len(body_calls) == 1 and norm(body_calls[0].targets[0]) in ('(item, cursor)', 'item, cursor') \
+        ok = ok and len(body_calls) == 1 and isinstance(body_calls[0].targets[0], ast.Tuple) and norm(body_calls[0].targets[0].elts[1]) == 'cursor' \
             and [norm(a) for a in body_calls[0].value.args] == [rm.params[0], 'cursor']
-        appended = [c for c in walk_own(loops[0]) if isinstance(c, ast.Call) and q.callee_name(ctx, rm, c) == 'items.append']
+        rr = [r for r in rm.own_nodes() if isinstance(r, ast.Return) and isinstance(r.value, ast.Tuple) and isinstance(r.value.elts[0], ast.Name)]
+        lst = rr[0].value.elts[0].id if len(rr) == 1 else None
+        appended = [c for c in walk_own(loops[0]) if isinstance(c, ast.Call) and lst and q.callee_name(ctx, rm, c) == f'{lst}.append']
         ok = ok and len(appended) == 1
     ctx.check(ok, 'C13.TRUNC', ctx.key(rm, None, 'count loop'),
               'read_many reads exactly the announced number of items, threading the cursor',
@@ -575,9 +577,11 @@ def rule_chunk_loops(ctx, rd):
 def rule_offsets(ctx, f, cfg, cl):
     '''PAIR: base offset advance is control-equivalent with the buffer drop; recorded boundary = base + cursor.'''
     cur, drop, outer = cl['cur'], cl['drop'], cl['outer']
-    appends = [c for c in q.own_calls(f) if q.callee_name(ctx, f, c) == 'offsets.append' and q.in_body(c, outer.body)]
+    rr = [r for r in f.own_nodes() if isinstance(r, ast.Return) and isinstance(r.value, ast.Name)]
+    offv = rr[0].value.id if rr and len({r.value.id for r in rr}) == 1 else None
+    appends = [c for c in q.own_calls(f) if offv and q.callee_name(ctx, f, c) == f'{offv}.append' and q.in_body(c, outer.body)]
     if len(appends) != 1:
-        raise AnalysisError(f'{f.key}: expected one offsets.append in the refill loop')
+        raise AnalysisError(f'{f.key}: expected one boundary append (to the returned offsets list) in the refill loop')
     a = appends[0].args[0]
     base = None
     if isinstance(a, ast.BinOp) and isinstance(a.op, ast.Add):
@@ -780,9 +784,10 @@ def rule_reverse(ctx):
             apps = [c for c in walk_own(outer) if isinstance(c, ast.Call) and q.callee_name(ctx, f, c) == f'{lst}.append']
             inits = [s for s in outer.body if isinstance(s, ast.Assign) and norm(s.targets[0]) == lst and norm(s.value) == '[]']
             wl = [s for s in outer.body if isinstance(s, ast.While)]
+            dv = q.callee_name(ctx, f, apps[0].args[0]).rsplit('.', 1)[0] if apps and isinstance(apps[0].args[0], ast.Call) else 'deserializer'
             ok = len(apps) == 1 and len(inits) == 1 and len(wl) == 1 and q.in_body(apps[0], wl[0].body) \
                 and q.callee_name(ctx, f, apps[0].args[0]).endswith('.read_tx_and_hash') \
-                and q.cmp_matches(ctx, f, wl[0].test, f'deserializer.cursor < {norm(sizes[0].targets[0]) if sizes else "x"}')
+                and q.cmp_matches(ctx, f, wl[0].test, f'{dv}.cursor < {norm(sizes[0].targets[0]) if sizes else "x"}')
     ctx.check(ok, 'C13.REVERSE', ctx.key(f, outer, 'pairs reversed'),
               'the transactions of a chunk are parsed to its end, collected per chunk and yielded in reverse',
               'the transactions of a chunk are not collected completely and yielded in reverse', loc=ctx.loc(f, outer))
